@@ -9,6 +9,7 @@ package main
 import (
 	"encoding/binary"
 	"fmt"
+	"math/big"
 	"os"
 	"os/exec"
 	"path/filepath"
@@ -121,6 +122,15 @@ func mkSig(e elem, digest, otherDigest []byte) *vaa.Signature {
 		copy(s.Signature[:32], make([]byte, 32))
 	case e.Corrupt == nv+2: // r = group order
 		copy(s.Signature[:32], secpN)
+	case e.Corrupt == nv+3:
+		// NOT a corruption: the other encoding of the same signature, (r, n-s, v^1). It recovers to the same
+		// address over the same digest (crypto.Ecrecover and the EVM precompile accept it), so it counts.
+		n := new(big.Int).SetBytes(secpN)
+		hs := new(big.Int).Sub(n, new(big.Int).SetBytes(s.Signature[32:64]))
+		hb := hs.Bytes()
+		copy(s.Signature[32:64], make([]byte, 32))
+		copy(s.Signature[64-len(hb):64], hb)
+		s.Signature[64] ^= 1
 	case e.Corrupt == 2:
 		s.Signature[3] ^= 0x10
 	case e.Corrupt == 3:
@@ -244,7 +254,7 @@ func main() {
 		}
 	}
 	// ---- small lists
-	nCorrupt := 4 + len(vvals) + 3
+	nCorrupt := 4 + len(vvals) + 4
 	for _, list := range smallLists() {
 		n := len(list)
 		idxs := append(keysRange(n+1), 255)
